@@ -22,6 +22,7 @@ type Options struct {
 	ServiceNoNode  bool // a root-only service may omit node
 	EmptyAbstract  bool // abstract types without members (C07 only)
 	ForceMutations bool
+	NodeShapedRoot bool // a Query field other than node with the shape (id: ID!): Node (labelled class)
 	MinServices    int
 }
 
@@ -454,6 +455,13 @@ func Generate(t *rapid.T, opt Options) *Model {
 			f.Name = g.rootName("on", f, usedS)
 			m.Roots["Subscription"] = append(m.Roots["Subscription"], f)
 		}
+	}
+	if opt.NodeShapedRoot && nNode > 0 && g.chance(25, "nodeshaped") {
+		owner := g.pick(k, "nsowner")
+		m.Roots["Query"] = append(m.Roots["Query"], &Field{Name: "lookup", Owner: owner,
+			Type: TypeRef{Name: "Node", Kind: KIface},
+			Args: []Arg{{Name: "id", Type: TypeRef{Name: "ID", Kind: KScalar, NonNull: true}}}})
+		m.Labels["nodeShapedRootField"] = true
 	}
 	// node entry points: required where a service owns a non-id field of a Node type
 	for s := 0; s < k; s++ {
